@@ -58,7 +58,25 @@ func (x *Exec) evalValue(fr *Frame, st *State, v ssa.Value, pred *ssa.BasicBlock
 		fr.env[v] = x.unop(fr, st, w)
 	case *ssa.BinOp:
 		a, b := x.get(fr, st, w.X), x.get(fr, st, w.Y)
-		fr.env[v] = x.binop(st, w.Op, a, b, w.X.Type(), w.Pos())
+		res := x.binop(st, w.Op, a, b, w.X.Type(), w.Pos())
+		if p, ok := res.(*Prim); ok && p.T.Sort != SBool {
+			hint := "v"
+			if w.Op == token.MUL || w.Op == token.QUO || w.Op == token.REM {
+				hint = "arith"
+			}
+			if hint == "arith" && p.T.Sort == SInt {
+				_, la := isIntLit(x.termOf(a))
+				_, lb := isIntLit(x.termOf(b))
+				if (w.Op == token.MUL && !la && !lb) || (w.Op != token.MUL && !lb) {
+					c := x.freshConst(st, "nl", SInt)
+					st.push(&LogNode{Kind: KAssume, T: Eq(c, p.T), NL: true})
+					p.T = c
+				}
+			}
+			p.T = x.name(st, hint, p.T)
+			p.Typ = w.Type()
+		}
+		fr.env[v] = res
 	case *ssa.FieldAddr:
 		p := x.get(fr, st, w.X).(*PtrV)
 		x.nilCheck(st, p, w.Pos())
@@ -364,7 +382,14 @@ func (x *Exec) valuesEqual(st *State, a, b Value, t types.Type) Term {
 	case *IfaceV:
 		switch bv := b.(type) {
 		case *IfaceV:
-			return And(Eq(av.Tag, bv.Tag), Eq(av.Data, bv.Data))
+			// an interface value is nil iff its type tag is 0
+			if bv.Tag.S == "0" {
+				return Eq(av.Tag, TZero)
+			}
+			if av.Tag.S == "0" {
+				return Eq(bv.Tag, TZero)
+			}
+			return And(Eq(av.Tag, bv.Tag), Or(Eq(av.Tag, TZero), Eq(av.Data, bv.Data)))
 		case *PtrV:
 			if bv.Loc == nil {
 				return Eq(av.Tag, TZero)
@@ -709,4 +734,11 @@ func (x *Exec) selectOp(fr *Frame, st *State, w *ssa.Select) Value {
 		}
 	}
 	return &TupleV{E: res}
+}
+
+func (x *Exec) termOf(v Value) Term {
+	if p, ok := v.(*Prim); ok {
+		return p.T
+	}
+	return Term{}
 }
